@@ -1,4 +1,19 @@
-"""C19 -- pipe splitting, breaking and skeletonization keep what they promise to keep."""
+"""C19 -- pipe splitting, breaking and skeletonization keep what they promise to keep.
+
+Techniques (DESIGN 2b), per rule -- rules emitted: R-C19-1, -2, -2b, -2c, -3, -4, -5, -6, -7:
+* T3 finite evaluation, bounded to the fixtures (R-C19-1, -2, -2b, -2c, -3 and the link.py part of -4): the functions of link.py are
+  interpreted by this module's own `Interp` on a small mock model.  In 32 configurations (function x new pipe at end / start x node
+  kinds x status) numbers are SV values, a sympy expression next to a sample value: BRANCHES ARE TAKEN BY THE SAMPLE (s = 0.3 or 0.7),
+  the results are compared as sympy identities on that one path -- concolic, not a path enumeration.  All polyline geometry, the ends
+  s = 0 / 1 and the out-of-range refusals are numeric fixtures (4 polylines x a grid of fractions for split, 5 fractions for break).
+  R-C19-1 also has one T1 part: CFG must-pass for the definite assignment of the add_junction arguments.
+* T2 symbolic path enumeration (class SX): _Skeletonize.__init__ for R-C19-4 (last store to self.wn compared as text, regex for a
+  bare `wn`), the three merge methods for R-C19-5 (guards compared as canonical texts, no solver) and R-C19-6 (ordered events
+  recognised by regex on their text).
+* T1 AST pattern / text matches: the other _Skeletonize methods in R-C19-4 (no Name `wn`; return_copy forwarded); the feeding of the
+  exclusion lists in R-C19-5 (substrings requires() / controls() / sources()); all of R-C19-7 (top-level statements of __init__ in
+  index order with the literal text self.wn.options.time.duration -- a shape match, not a path rule).
+"""
 import ast
 import collections
 import copy
@@ -1564,7 +1579,8 @@ def link_rules(repo, chk):
 
 
 # ======================================================================================================================
-# R-C19-4 .. R-C19-7 for skeletonize: path enumeration (sa/symx.py).  Every value is the canonical text of what it was computed
+# R-C19-4 .. R-C19-6 for skeletonize: path enumeration (sa/symx.py); R-C19-7 and the exclusion-list part of R-C19-5 are AST pattern
+# matches further below, not path rules.  In the path enumeration every value is the canonical text of what it was computed
 # from (locals, temporaries and inlined helpers disappear), every path carries the outcomes of the tests it passed and the
 # calls / stores it performed in execution order.
 # ======================================================================================================================
@@ -1868,25 +1884,26 @@ def bind_args(call, names):
 
 
 EXPLANATION = (
-    "Static analysis of wntr/morph/link.py (split_pipe, break_pipe, _split_or_break_pipe, reverse_link) and wntr/morph/skel.py::_Skeletonize. The functions of link.py are "
-    "INTERPRETED on their AST by the checker's own evaluator over a mock model (nothing of the repository is imported or run): numbers carry a sympy expression next to a "
-    "sample value, so that every result is compared as an identity in the split fraction s, the length, the elevations and the coordinates, and the polyline geometry is "
-    "evaluated on a grid of fractions along polylines with repeated, zero-length and end-point vertices. (R-C19-1) new-pipe length + retained length = original length, the "
-    "part that keeps the start node gets L*s, elevation and coordinates are the linear interpolation at s (reservoir ends take the other end's elevation; with vertices the "
-    "junction lies on the crossing segment and the vertices are partitioned in order), every admissible call completes, and 0 <= s <= 1 is enforced before any mutation; "
-    "(R-C19-2) the new pipe receives the old pipe's diameter, roughness and base status through add_pipe's signature and a constant False check valve; (R-C19-3) the old pipe "
-    "is re-wired through the usage-maintaining setters, SPLIT uses one junction for both pipes and BREAK two, name clashes and non-pipes are refused before mutation, nothing "
-    "else changes; (R-C19-4) with return_copy every mutation goes to the deep copy and no object is shared, the caller's model is only read; path enumeration of "
-    "_Skeletonize: (R-C19-5) every remove_link is reached only under isinstance Pipe, diameter <= threshold and the exclusion list for that very pipe, every remove_node "
-    "removes a junction from junction_name_list that is not excluded, exclusion lists contain the requires() of every control, and the junction that receives demands is a "
-    "Junction; (R-C19-6) demand entries and the skeleton map of the removed junction are moved to one and the same retained junction before remove_node, the initial map is "
-    "{n: [n]}; (R-C19-7) the duration changed for the internal simulation is restored. Decides these clauses, not hydraulic equivalence.")
+    "wntr/morph/link.py (split_pipe, break_pipe, reverse_link): T3, finite evaluation -- the parsed functions are INTERPRETED by the module's own evaluator on a mock "
+    "model. In 32 configurations numbers carry a sympy expression next to a sample value; branches follow the sample (s = 0.3 / 0.7), results are compared as "
+    "identities on that path (no path enumeration); polyline geometry, s = 0 / 1 and refusals are numeric fixtures. Bounded to these scenarios. R-C19-1: new + kept "
+    "length = L, the start part gets L*s, junction elevation / coordinates interpolate at s, vertices partitioned in order, s outside [0,1] refused before mutation "
+    "(+ T1 CFG must-pass: add_junction arguments assigned on every path). R-C19-2: the new pipe gets the old diameter, roughness, base status and a false check valve. "
+    "R-C19-2b: minor losses add up. R-C19-2c (closed-pipe SPLIT fixtures only): the new half is not created Closed. R-C19-3: the old pipe is re-wired by one end-node "
+    "store, SPLIT meets at one junction, BREAK at two, clashes and non-pipes refused before mutation. R-C19-4: with return_copy every mutation goes to the deep copy "
+    "(link.py by T3; _Skeletonize.__init__ by T2 with text comparison; other methods by AST pattern). skel.py::_Skeletonize, T2 symbolic path enumeration, guards / "
+    "events compared as canonical text: R-C19-5 remove_link only under isinstance Pipe, diameter <= threshold, not excluded; remove_node only for a non-excluded "
+    "junction; exclusion lists fed from controls / sources (AST + substring match). R-C19-6 demands and skeleton-map entries move to one retained junction before "
+    "remove_node; initial map {n: [n]}. R-C19-7 (T1 shape match on the top-level statements of __init__, not a path rule): duration saved, set to 0, run_sim, "
+    "restored, in this order. Decides these clauses, not hydraulic equivalence.")
 RULE_TEXT = "one instance = one promised fact (formula, argument, refusal, mutation or removal site), discharged iff it holds in every evaluated scenario / on every enumerated path; distinct = distinct constructs"
 ASSUMPTIONS = [
     "copy.deepcopy of a WaterNetworkModel shares nothing mutable with the original (pickling hooks are checked under C10)",
     "demand entries are moved as objects (pattern registry usage records of the retained junction are not re-registered; inventoried, outside the statement)",
     "WaterNetworkModel.get_link / get_node / nodes() / links() / add_junction / add_pipe behave as documented (lookup by name, creation under the given name); add_pipe and add_junction "
     "arguments are bound through their signatures in wntr/network/model.py",
+    "R-C19-1 .. -3 decide their clauses on the evaluated scenarios only: the symbolic identities hold on the path the sample value takes, polyline geometry and the ends s = 0 / 1 are numeric",
+    "R-C19-2 accepts any check_valve value that evaluates to False, 0 or None (it does not require a constant); R-C19-2c and R-C19-7 have no instance floor",
 ]
 
 
